@@ -1,5 +1,8 @@
+import re
 from .config import Config
 from .abbreviation.convert import AbbreviationAttribute, AbbreviationNode
+
+re_newline = re.compile(r'\r\n|\r|\n')
 
 expression_start = '{'
 expression_end = '}'
@@ -62,7 +65,15 @@ class OutputStream:
     def push_field(self, index: int, placeholder: str=''):
         field = self.options.get('output.field')
         # NB: use `_push` instead of `push` to skip text processing
-        self._push(field(index, placeholder, offset=self.offset, line=self.line, column=self.column))
+        value = field(index, placeholder, offset=self.offset, line=self.line, column=self.column)
+        self._push(value)
+
+        # Field output is not processed, but it may span several lines (a placeholder
+        # with line breaks): keep line and column in sync with actual output
+        lines = re_newline.split(value)
+        if len(lines) > 1:
+            self.line += len(lines) - 1
+            self.column = len(lines[-1])
 
 
 def tag_name(name: str, config: Config):
